@@ -21,7 +21,7 @@ RULE = ("files from the SpikeGLX writer model: {3A,3B1,3B2,NP2.1,NP2.4,NPultra,n
 ASSUMPTIONS = ["pairs of two index arrays are not generated (NumPy pairs them pointwise, the reader gathers orthogonally; the property "
                "names neither)", "values agree to float32 rounding of 'float32(raw) x factor': |got-exp| <= 2^-22 |exp|; sync exact",
                "mtscomp (dependency) is observed only through the reader"]
-REQUIRED = {"getitem_calls": 300, "read_calls": 50, "values_compared": 300, "geometry_rows_checked": 20, "cbin_files": 3, "negstep_slices": 10, "lf_band_files": 10}
+REQUIRED = {"getitem_calls": 300, "read_calls": 50, "values_compared": 300, "geometry_rows_checked": 20, "cbin_files": 3, "negstep_slices": 10, "lf_band_files": 10, "inconsistent_metadata_files": 10}
 CASE_TIMEOUT = 60.0
 RTOL = 2.0 ** -22
 
@@ -95,7 +95,8 @@ def run_case(case):
         stream = "lf" if rng.random() < 0.3 else "ap"          # the LF band of the same probes: its own gain column, the same sync word
         rec = G.make(rng, kind=kind, stream=stream, sites=G.draw_sites(rng, kind, n, mode), encoding=enc, gains=gains, ns=ns, aimax=aimax, maxint=maxint,
                      fs=float(rng.choice([30000.0, 30000.390639481])) if stream == "ap" else float(rng.choice([2500.0, 2500.0325])),
-                     nsync=int(rng.choice([1, 1, 1, 1, 0])))
+                     nsync=int(rng.choice([1, 1, 1, 1, 0])),
+                     claim_ns=(max(1, ns + int(rng.choice([-1, 1])) * int(rng.choice([1, 7, 40, 1500]))) if rng.random() < 0.15 else None))
         if stream == "lf":
             res.count("lf_band_files")
         n = rec.n
@@ -108,13 +109,21 @@ def run_case(case):
     syncmask[rec.nc - rec.nsync:] = True     # sync columns stay last under both orders
     label0 = f"{kind}/{getattr(rec, 'stream', 'nidq')}/{enc}/{mode}/n={n}/sort={sort}/{'cbin' if cbin else 'bin'}"
     seams = None
+    # metadata announcing another length than the file holds (recording cut short / still growing): the recording is what the FILE holds, whether or
+    # not the reader is asked to keep quiet about the disagreement
+    rkw = {"sort": sort}
+    claim = int(round(float(rec.meta.get("fileTimeSecs", 0)) * rec.fs)) if kind != "nidq" and "fileTimeSecs" in rec.meta else ns
+    if kind != "nidq" and claim != ns:
+        rkw["ignore_warnings"] = bool(rng.integers(0, 2))
+        label0 += f"/metadata announces {claim} of {ns} samples, ignore_warnings={rkw['ignore_warnings']}"
+        res.count("inconsistent_metadata_files")
     try:
-        sr = spikeglx.Reader(b, sort=sort)
+        sr = spikeglx.Reader(b, **rkw)
         if cbin:
             cd = float(rng.choice([0.002, 0.005, 0.011]))
             sr.compress_file(keep_original=False, chunk_duration=cd)
             sr.close()
-            sr = spikeglx.Reader(b.with_suffix(".cbin"), sort=sort)
+            sr = spikeglx.Reader(b.with_suffix(".cbin"), **rkw)
             seams = np.asarray(sr._raw.chunk_bounds[1:-1])
             res.count("cbin_files")
     except Exception as e:
